@@ -18,6 +18,7 @@
 #include <algorithm>
 #include <cstdio>
 #include <cstdlib>
+#include <cstdint>
 #include <deque>
 #include <iostream>
 #include <list>
@@ -105,6 +106,18 @@ static std::string show(VecPair& p, bool& bad)
         if (same && p.x[i] != p.s[i]) same = false;
     }
     if (!same) { o << " !std"; bad = true; }
+    return o.str();
+}
+
+// a returned vector iterator as an offset from the current begin(), by address comparison only (nothing is read
+// through it): an address outside [begin, end] of the current buffer is reported as dangling
+static std::string retOff(XVec& x, XVec::iterator it, long stdOff, bool& bad)
+{
+    const uintptr_t b = reinterpret_cast<uintptr_t>(x.begin()), e = reinterpret_cast<uintptr_t>(x.end());
+    const uintptr_t p = reinterpret_cast<uintptr_t>(it);
+    std::ostringstream o;
+    if (p < b || p > e || (p - b) % sizeof(VALT) != 0) { o << "ret=dangling "; bad = true; }
+    else { const long off = long((p - b) / sizeof(VALT)); o << "ret=" << off << " "; if (off != stdOff) bad = true; }
     return o.str();
 }
 
@@ -328,6 +341,21 @@ struct CachePair
     ~CachePair() { for (int i = 0; i < 4; ++i) if (slot[i] != 0) x->release(slot[i]); }
 };
 
+// a returned list iterator as its distance from begin(): found by comparing node addresses while walking the list
+static std::string lstRet(XLst& x, XLst::iterator r, long stdIdx, bool& bad)
+{
+    long idx = 0;
+    for (XLst::iterator it = x.begin(); it != x.end(); ++it, ++idx)
+        if (it == r)
+        {
+            std::ostringstream o; o << "ret=" << idx << " ";
+            if (idx != stdIdx) bad = true;
+            return o.str();
+        }
+    bad = true;
+    return "ret=dangling ";
+}
+
 template <class It> static It adv(It it, long n) { while (n-- > 0) ++it; return it; }
 
 // ------------------------------------------------------------------------------------ main
@@ -419,6 +447,7 @@ int main()
         while (n < 6 && (in >> a[n])) ++n;
         bool bad = false;
         std::string out;
+        std::string retpre;     // a returned iterator, as an offset from the current begin()
         if (sub == "vec")
         {
             size_t id = size_t(a[0]);
@@ -437,7 +466,14 @@ int main()
             {
                 if (op == "push") { const VALT val = VALT(int(a[1])); X(p.x.push_back(val)); p.s.push_back(int(a[1])); }
                 else if (op == "pop") { X(p.x.pop_back()); p.s.pop_back(); }
-                else if (op == "ins1") { const VALT val = VALT(int(a[2])); X(p.x.insert(p.x.begin() + a[1], val)); p.s.insert(p.s.begin() + a[1], int(a[2])); }
+                else if (op == "ins1")
+                {
+                    const VALT val = VALT(int(a[2]));
+                    XVec::iterator r = 0;
+                    X(r = p.x.insert(p.x.begin() + a[1], val));
+                    std::vector<int>::iterator sr = p.s.insert(p.s.begin() + a[1], int(a[2]));
+                    retpre = retOff(p.x, r, long(sr - p.s.begin()), bad);
+                }
                 else if (op == "insn") { const VALT val = VALT(int(a[3])); X(p.x.insert(p.x.begin() + a[1], size_t(a[2]), val)); p.s.insert(p.s.begin() + a[1], size_t(a[2]), int(a[3])); }
                 else if (op == "insr")
                 {
@@ -445,7 +481,20 @@ int main()
                     X(p.x.insert(p.x.begin() + a[1], q.x.begin() + a[3], q.x.begin() + a[4]));
                     p.s.insert(p.s.begin() + a[1], q.s.begin() + a[3], q.s.begin() + a[4]);
                 }
-                else if (op == "erase") { X(p.x.erase(p.x.begin() + a[1], p.x.begin() + a[2])); p.s.erase(p.s.begin() + a[1], p.s.begin() + a[2]); }
+                else if (op == "erase")
+                {
+                    XVec::iterator r = 0;
+                    X(r = p.x.erase(p.x.begin() + a[1], p.x.begin() + a[2]));
+                    std::vector<int>::iterator sr = p.s.erase(p.s.begin() + a[1], p.s.begin() + a[2]);
+                    retpre = retOff(p.x, r, long(sr - p.s.begin()), bad);
+                }
+                else if (op == "erase1")
+                {
+                    XVec::iterator r = 0;
+                    X(r = p.x.erase(p.x.begin() + a[1]));
+                    std::vector<int>::iterator sr = p.s.erase(p.s.begin() + a[1]);
+                    retpre = retOff(p.x, r, long(sr - p.s.begin()), bad);
+                }
                 else if (op == "resize") { const VALT val = VALT(int(a[2])); X(p.x.resize(size_t(a[1]), val)); p.s.resize(size_t(a[1]), int(a[2])); }
                 else if (op == "reserve") { X(p.x.reserve(size_t(a[1]))); p.s.reserve(size_t(a[1])); }
                 else if (op == "clear") { X(p.x.clear()); p.s.clear(); }
@@ -462,7 +511,7 @@ int main()
                 else if (op == "resizeself") { int v = p.s[size_t(a[2])]; p.s.resize(size_t(a[1]), v); X(p.x.resize(size_t(a[1]), p.x[size_t(a[2])])); }
                 else if (op == "pushself") { p.s.push_back(p.s[size_t(a[1])]); X(p.x.push_back(p.x[size_t(a[1])])); }
                 else { std::cout << "bad\n"; continue; }
-                out = show(p, bad);
+                { bool b2 = false; out = retpre + show(p, b2); if (bad && !b2) out += " !std"; bad = bad || b2; }
             }
         }
         else if (sub == "map")
@@ -620,7 +669,7 @@ int main()
                 XLst::iterator r = p.x->end();
                 X(r = p.x->insert(adv(p.x->begin(), a[1]), val));
                 std::list<int>::iterator sr = p.s.insert(adv(p.s.begin(), a[1]), int(a[2]));
-                if (*r != *sr) bad = true;
+                retpre = lstRet(*p.x, r, long(std::distance(p.s.begin(), sr)), bad);
             }
             else if (op == "eraseat") { X(p.x->erase(adv(p.x->begin(), a[1]))); p.s.erase(adv(p.s.begin(), a[1])); }
             else if (op == "save")
@@ -637,7 +686,15 @@ int main()
                 std::ostringstream o; o << "r=" << **sl.x << " "; pre = o.str();
                 if (**sl.x != *sl.s) bad = true;
             }
-            else if (op == "insit") { Slot& sl = w->slots[size_t(a[1])]; const VALT val = VALT(int(a[2])); X(p.x->insert(*sl.x, val)); p.s.insert(sl.s, int(a[2])); }
+            else if (op == "insit")
+            {
+                Slot& sl = w->slots[size_t(a[1])];
+                const VALT val = VALT(int(a[2]));
+                XLst::iterator r = p.x->end();
+                X(r = p.x->insert(*sl.x, val));
+                std::list<int>::iterator sr = p.s.insert(sl.s, int(a[2]));
+                retpre = lstRet(*p.x, r, long(std::distance(p.s.begin(), sr)), bad);
+            }
             else if (op == "eraseit") { Slot& sl = w->slots[size_t(a[1])]; X(p.x->erase(*sl.x)); p.s.erase(sl.s); sl.x.reset(); }
             else if (op == "splice")
             {
@@ -656,7 +713,7 @@ int main()
             else if (op == "show") {}
             else { std::cout << "bad\n"; continue; }
             bool b2 = false;
-            out = show(p, pre, b2);
+            out = retpre + show(p, pre, b2);
             if (bad && !b2) out += " !std";
             bad = bad || b2;
         }
